@@ -242,8 +242,8 @@ def gen_case(rng, collide=False, big=False, defaults=False):
             if v == 0: ops.append(f"find {c.fam} {c.ca} {c.cp} {c.sa} {c.sp}")
             elif v == 1: ops.append(f"find {c.fam} {c.sa} {c.sp} {c.ca} {c.cp}")
             elif v == 2: ops.append(f"find {c.fam} {c.ca} {c.sp} {c.sa} {c.cp}")
-            elif c.fam == "v4": ops.append(f"find v6 {pad_v4(c.ca)} {c.cp} {pad_v4(c.sa)} {c.sp}")
-            else: ops.append(f"find v6 {c.ca} {(c.cp + 1) % 65536} {c.sa} {c.sp}")
+            elif c.fam == "v4" and collide: ops.append(f"find v6 {pad_v4(c.ca)} {c.cp} {pad_v4(c.sa)} {c.sp}")
+            else: ops.append(f"find {c.fam} {c.ca} {(c.cp + 1) % 65536} {c.sa} {c.sp}")
     for c in conns:
         ops.append(f"find {c.fam} {c.ca} {c.cp} {c.sa} {c.sp}")
     return ops
